@@ -50,6 +50,13 @@ class FileLike(object):
     def tell(self):
         return self.pos
 
+    # zipfile (Python 3.7+) asks the underlying file object for these
+    def seekable(self):
+        return True
+
+    def readable(self):
+        return True
+
     def read(self, n=-1):
         if self.buflist:
             self.buf += self.null.join(self.buflist)
